@@ -373,10 +373,10 @@ MANIFEST = dict(
         "__iter__ steps the epoch by exactly one after taking the current order; the per-rank slice and "
         "__len__ agree as (rank, effective_total, world) and ceil((stop-start)/step); all four "
         "on_uneven_distributed modes are handled. From these the exact-partition statement follows by "
-        "arithmetic over (N, world, rank); numpy/itertools semantics are trusted."),
+        "arithmetic over (N, world, rank); numpy/itertools semantics are trusted. At the loader level (S6): every loader constructor forwards init_epoch / seed options to the sampler it builds on every path, and the length a bucketed loader reports counts the rank's own share of the current epoch."),
     level_note="Trusted: python ast, numpy RandomState determinism, itertools.islice. Fields are 'final' if "
                "assigned only in __init__ of the sampler hierarchy and never through another object in the package.",
-    technique="static analysis: effect/purity analysis (RNG sources, final fields), reaching definitions, linear normal forms, partial evaluation per uneven-handling mode, integer evaluation of the dropped size on a grid; interpretation of the constructor / rank share / __len__ over the syntax tree at a grid of (mode, process-group state, size) compared with the documented partition table",
+    technique="static analysis: effect/purity analysis (RNG sources, final fields), reaching definitions, linear normal forms, partial evaluation per uneven-handling mode, integer evaluation of the dropped size on a grid; interpretation of the constructor / rank share / __len__ over the syntax tree at a grid of (mode, process-group state, size) compared with the documented partition table; dropped-option analysis of the loader constructors, iteration-source rule of the loader length",
     design_ref="DESIGN.md section 4 C13, section 3 G11/G12/G8/G10",
 )
 
